@@ -941,6 +941,17 @@ func (g *Gen) genItem(depth int) *Ast {
 		}
 		g.tag("print:past-loop-var")
 		return &Ast{K: "print", Path: g.past[r.Intn(len(g.past))]}
+	case "lettersrun":
+		// the same escape letter two or three times on a text with blanks (and little else): every
+		// pass works on the output of the pass before
+		ev := fmt.Sprintf("w%d", len(g.data.Statics))
+		txt := []string{"a b", "x y z", " lead", "tail ", "a  b", "two words+more", "q=a b&c"}[r.Intn(7)]
+		g.data.Statics = append(g.data.Statics, StaticVar{Name: ev, Kind: []string{"string", "bytes", "setstring"}[r.Intn(3)], Ptr: r.Bool(), S: []byte(txt)})
+		a := &Ast{K: "print", Path: ev}
+		l := []string{"u", "h", "j", "J", "c", "a", "l", "q"}[r.Intn(8)]
+		a.Letters = strings.Repeat(l, 2+r.Intn(2))
+		g.tag("lettersrun:" + l)
+		return a
 	case "okself":
 		// a ctx tag whose source expression reads the very name it uses as its flag: the value
 		// the flag had before the tag
